@@ -8,19 +8,11 @@ import Optyx.Generated.PinsC16
 namespace Optyx.Props.PinsC16
 open Optyx.Generated.PinsC16
 
-/-- `Problem.n_constraints` (problem.py) -/
-theorem pin_problem_Problem_n_constraints_anchor : pin_problem_Problem_n_constraints = "f1d7283affcc2213" := rfl
 /-- `Problem.summary` (problem.py) -/
 theorem pin_problem_Problem_summary_anchor : pin_problem_Problem_summary = "bbcdac853c42d5a8" := rfl
-/-- `Problem.objective` (problem.py) -/
-theorem pin_problem_Problem_objective_anchor : pin_problem_Problem_objective = "dccb3b4cfb408f6b" := rfl
-/-- `Problem.sense` (problem.py) -/
-theorem pin_problem_Problem_sense_anchor : pin_problem_Problem_sense = "f8a0868e8e21138d" := rfl
-/-- `Problem.constraints` (problem.py) -/
-theorem pin_problem_Problem_constraints_anchor : pin_problem_Problem_constraints = "c96f1212141cb5da" := rfl
 
 /-- every function the model of C16 transcribes (and no translator covers) is the one it was read from -/
-theorem anchors : pin_problem_Problem_n_constraints = "f1d7283affcc2213" ∧ pin_problem_Problem_summary = "bbcdac853c42d5a8" ∧ pin_problem_Problem_objective = "dccb3b4cfb408f6b" ∧ pin_problem_Problem_sense = "f8a0868e8e21138d" ∧ pin_problem_Problem_constraints = "c96f1212141cb5da" :=
-  ⟨pin_problem_Problem_n_constraints_anchor, pin_problem_Problem_summary_anchor, pin_problem_Problem_objective_anchor, pin_problem_Problem_sense_anchor, pin_problem_Problem_constraints_anchor⟩
+theorem anchors : pin_problem_Problem_summary = "bbcdac853c42d5a8" :=
+  pin_problem_Problem_summary_anchor
 
 end Optyx.Props.PinsC16
